@@ -134,6 +134,7 @@ func (em *emitter) emitNodes(nodes []ast.Node) {
 				endForLabel := em.fb.newLabel()
 				em.rangeLabels = append(em.rangeLabels, forLabel)
 				em.emitNodes(node.Body)
+				em.rangeLabels = em.rangeLabels[:len(em.rangeLabels)-1]
 				if node.Post != nil {
 					em.emitNodes([]ast.Node{node.Post})
 				}
